@@ -14,7 +14,7 @@ class C08(TreeCheck):
     jobs = 6  # keep the machine quiet enough for the rendezvous (8 workers x 6 cases)
     rule_text = (
         "programs from g_par (max_workers 1-8; submits, pauses around the idle timeout, resizes up/down; after every step a saturating batch of "
-        "max_workers rendezvous tasks that return only when max_workers of them are checked in simultaneously) with read-only probes of "
+        "max_workers rendezvous tasks that return only when max_workers of them are checked in simultaneously; family grow_while_respawning: a reusable executor whose workers idle out between slowly pickled jobs is grown while those jobs are in flight) with read-only probes of "
         "len(_processes) at every statement of _adjust_process_count / process_result_item / _resize / submit (under the locks the code holds there); "
         "profile run, delays (D) on spawn/respawn/resize paths, worker-side delays (WD) and jitter (Z). Non-trivial = a rendezvous batch was "
         "observed; distinct = (shape, mode, injection function, number of batches, peak overlap)."
@@ -25,7 +25,7 @@ class C08(TreeCheck):
 
     def bases(self, tier, rng):
         n = 10 if tier == "quick" else 70
-        return [dict(zip(("program", "meta"), programs.g_par(rng)), config={}) for _ in range(n)]
+        return [dict(zip(("program", "meta"), programs.g_par(rng, family="grow_while_respawning" if i % 5 == 3 else None)), config={}) for i in range(n)]
 
     def derive(self, base, F, rng, tier):
         quick = tier == "quick"
@@ -51,7 +51,7 @@ class C08(TreeCheck):
         self._inv = getattr(self, "_inv", 0) + len([i for i in F.invs if i.get("name") == "nproc"])
         peak = max([f["done"]["value"][3] for f in rv if f["done"]["state"] == "result"] or [0])
         m = case["meta"]
-        return (m.get("kind"), m.get("kw", {}).get("max_workers"), m.get("kw", {}).get("timeout"), m.get("mode"), m.get("fn"), len(rv), peak)
+        return (m.get("kind"), m.get("family"), m.get("kw", {}).get("max_workers"), m.get("kw", {}).get("timeout"), m.get("mode"), m.get("fn"), len(rv), peak)
 
     def extra_coverage(self):
         return {"nproc_invariant_evaluations": getattr(self, "_inv", 0)}
